@@ -21,7 +21,16 @@ def tt_layer(E, s):
         for k, c in enumerate(cores):
             c.copy_(E.tensor('w%d' % k, list(c.shape), s['dtype']))
         layer.bias.copy_(E.tensor('b', s['size_out'], s['dtype']))
-    x = E.tensor('x', list(s['batch']) + list(s['size_in']), s['dtype'])
+    run_dt = s['dtype']
+    if s.get('convert'):
+        # the layer is converted to another precision after construction (module.double() / .float() / .to(dtype))
+        run_dt = s['convert_to']
+        if s['convert'] == 'method':
+            layer = layer.double() if run_dt == 'float64' else layer.float()
+        else:
+            layer = layer.to(dtype=E.dt(run_dt)) if s['convert'] == 'to_kw' else layer.to(E.dt(run_dt))
+        E.true('converted', all(E.dtname(p) == run_dt for p in layer.parameters()))
+    x = E.tensor('x', list(s['batch']) + list(s['size_in']), run_dt)
     if s.get('mode') == 'eval_then_update':
         # multi-step: a forward pass in eval mode, then the parameters change (as an optimizer step / load_state_dict would), then forward again
         layer.eval()
@@ -38,9 +47,10 @@ def tt_layer(E, s):
         sd = {k: E.tensor('sd_' + k.replace('.', '_'), list(v.shape), s['dtype']) for k, v in layer.state_dict().items()}
         layer.load_state_dict(sd)
     y = layer(x) if s.get('call') else layer.forward(x)
+    cores = [c for c in layer.cores]
     W = dense(E, [c.detach() for c in cores])      # size_out... x size_in...
     nb = len(s['batch'])
     ref = tn.tensordot(x, W, dims=(list(range(nb, nb + d)), list(range(d, 2 * d)))) + layer.bias.detach()
     E.true('is_tensor', tn.is_tensor(y))
     E.eq('value', y, ref)
-    E.true('out_dtype', E.dtname(y) == s['dtype'])
+    E.true('out_dtype', E.dtname(y) == run_dt)
